@@ -71,6 +71,19 @@ func verifSelective(a, b *verifNode, re *regexp.Regexp, matched, ambiguous bool,
 			return
 		}
 		amb := ambiguous
+		if matched && len(a.kpath) > 0 {
+			last := a.kpath[len(a.kpath)-1]
+			parent := ""
+			if len(a.kpath) > 1 {
+				parent = a.kpath[len(a.kpath)-2]
+			}
+			if last == "pipeline" || last == "whenMatched" || parent == "$facet" {
+				// a sub-pipeline starts a new document context: whether a matching name above
+				// it (a $facet output name, a $lookup target) governs the literals inside is
+				// not settled by the property text
+				amb = true
+			}
+		}
 		for _, k := range a.kids {
 			if k.kind == vStr && strings.HasPrefix(k.s, "$") {
 				// expression array with a '$field' operand: the tool may treat the sibling
